@@ -11,7 +11,7 @@ def cases(tier, seed):
 def check(case):
     R = S.from_json(case['R'])
     fails = K.c01_accepts(R, 4 if len(R[1]) <= 1 else 3) + K.c01_conversions(R)
-    if len(R[0]) <= 3: fails += K.fa_structural(R)
+    if len(R[0]) <= 3: fails += K.fa_structural(R) + K.c01_after_mutation(R)
     if fails and G.merged_name_collision(R):
         for f in fails: f['tags'] = ['merged-name-collision']
     return fails, G.nontrivial(R), 1
